@@ -329,6 +329,21 @@ Section Generation.
     - intros H; inversion H; subst. replace (S i - 1) with i by lia. split; [lia|exact E].
   Qed.
 
+  (* ... and in the direction the property states it: if the source fails at call n, and every earlier call of the
+     loop served an invalid scalar (so the loop gets that far), the outcome is the failure — no key, whatever the
+     later calls would have served *)
+  Theorem v3_random_failure_gives_no_key R fuel i n :
+    (forall m x, i <= m < n -> R m 48 = Some x -> p384_pk O x = None) -> (forall m, i <= m < n -> R m 48 <> None) ->
+    i <= n -> R n 48 = None -> n - i < fuel -> v3_random R i fuel = (GenRngFailed, S n).
+  Proof.
+    revert i n. induction fuel as [|f IH]; intros i n Hinv Hsome Hle Hn Hf; [lia|].
+    cbn [v3_random]. destruct (Nat.eq_dec i n) as [->|Hne]; [rewrite Hn; reflexivity|].
+    destruct (R i 48) as [b|] eqn:E; [|exfalso; apply (Hsome i); [lia|exact E]].
+    rewrite (Hinv i b ltac:(lia) E). apply IH; try lia; try assumption.
+    - intros m x Hm. apply Hinv. lia.
+    - intros m Hm. apply Hsome. lia.
+  Qed.
+
   (* every rejected draw was an invalid scalar: the loop never discards a usable key *)
   Theorem v3_random_skips_only_invalid R i fuel out j n x :
     v3_random R i fuel = (out, j) -> i <= n -> S n < j -> R n 48 = Some x -> p384_pk O x = None.
